@@ -525,3 +525,36 @@ package ackhandler
 //@   assume m != SendNone
 //@   show [step] h.bytesSent + size <= 3*h.bytesReceived + S
 //@   show [strict-before] h.bytesSent < 3*h.bytesReceived
+
+// ---------------- uQUIC: per-packet Initial packet number length (C10) ----------------
+//@ iface (p ackhandler.packetNumberGenerator) Peek
+//@   ensures 0 <= result && result <= 4611686018427387903
+//@   modifies nothing
+
+//@ func (h *uSentPacketHandler) PeekPacketNumber
+//@   props C10
+//@   requires h.sentPacketHandler != nil
+//@   requires encLevel == protocol.EncryptionInitial || encLevel == protocol.EncryptionHandshake || encLevel == protocol.Encryption0RTT || encLevel == protocol.Encryption1RTT
+//@   let sp = ite(encLevel == protocol.EncryptionInitial, h.sentPacketHandler.initialPackets, ite(encLevel == protocol.EncryptionHandshake, h.sentPacketHandler.handshakePackets, h.sentPacketHandler.appDataPackets))
+//@   requires sp != nil && sp.pns != nil && -1 <= sp.largestAcked && sp.largestAcked <= 4611686018427387903
+//@   requires 0 <= h.initialPacketNumberBase && h.initialPacketNumberBase <= 4611686018427387903
+//@   let lens = h.initialPacketNumberLengths
+//@   let d = result0 - h.initialPacketNumberBase
+//@   let useList = encLevel == protocol.EncryptionInitial && len(lens) > 0
+//@   let useSingle = encLevel == protocol.EncryptionInitial && len(lens) == 0 && h.initialPacketNumberLength != 0
+//@   ensures [peeked] result0 == lastresult("(ackhandler.packetNumberGenerator).Peek") && called("(ackhandler.packetNumberGenerator).Peek") == 1
+//@   ensures [per-packet-list] implies(useList, result1 == lens[ite(d < 0, 0, ite(d >= len(lens), len(lens) - 1, d))])
+//@   ensures [single-override] implies(useSingle, result1 == h.initialPacketNumberLength)
+//@   ensures [default] implies(!useList && !useSingle && result0 > sp.largestAcked, result1 == ite(result0 - sp.largestAcked < 32768, 2, ite(result0 - sp.largestAcked < 8388608, 3, 4)))
+//@   unclaimed pre:PacketNumberLengthForHeader@5.0 "the next packet number exceeds the largest acknowledged one" is a history invariant of the packet number space (ReceivedAck rejects acknowledgements of unsent packets); it is not visible at this call and is assumed
+//@   modifies nothing
+
+//@ func SetInitialPacketNumberLength
+//@   props C10
+//@   ensures implies(typeis(h, *uSentPacketHandler), dyn(h, *uSentPacketHandler).initialPacketNumberLength == pnLen)
+//@   modifies dyn(h, *uSentPacketHandler).initialPacketNumberLength
+
+//@ func SetInitialPacketNumberLengths
+//@   props C10
+//@   ensures implies(typeis(h, *uSentPacketHandler), dyn(h, *uSentPacketHandler).initialPacketNumberBase == base && samearray(dyn(h, *uSentPacketHandler).initialPacketNumberLengths, pnLens) && len(dyn(h, *uSentPacketHandler).initialPacketNumberLengths) == len(pnLens))
+//@   modifies dyn(h, *uSentPacketHandler).initialPacketNumberBase, dyn(h, *uSentPacketHandler).initialPacketNumberLengths
